@@ -13,7 +13,8 @@ open Gozod.LockSet
 
 /-! `c14 hist <kind> <id>/<op>/<res>/<inv>/<ret> …` — a history recorded from the real registry / configuration by
     harness/racex.  Model column: does `Conc.linearizable` find a linearization against the sequential specification
-    `Conc.apply` (from the empty registry and the zero configuration)?  Spec column: `lin` — the property. -/
+    `Conc.apply` (from the empty registry and the zero configuration), AND can the code model `Conc.stepC` produce the history
+    (`Conc.replayable`: the machine is run on the recorded calls)?  Spec column: `lin` — the property. -/
 
 def nat (s : String) : Nat := s.toNat?.getD 0
 
@@ -52,7 +53,17 @@ def histVerdict (calls : List String) : String :=
   | none => "bad-history"
   | some h =>
     if !(h.all (fun c => c.inv ≤ c.ret)) then "bad-history"
-    else if Conc.linearizable Conc.St.init h then "lin" else "nonlin"
+    else
+      -- (1) the specification: is there a linearization against `Conc.apply`?  (2) the code model: can the machine
+      -- `Conc.stepC` (registry calls atomic; SetConfig = Load, then CompareAndSwap until one succeeds) produce the
+      -- recorded results by interleaving the calls' atomic steps within their recorded windows?  By
+      -- C14.replay_linearizable (2) implies (1); a linearizable history the machine cannot produce means the code
+      -- model is not the code.
+      let spec := Conc.linearizable Conc.St.init h
+      let mach := Conc.replayable Conc.St.init h
+      if spec && !mach then "machine-cannot-produce"
+      else if mach && !spec then "machine-not-linearizable"
+      else if spec then "lin" else "nonlin"
 
 /-- `lockorder`: what the lock-order model computes on the regenerated table (shown in the evidence) -/
 def lockOrderLine : String :=
